@@ -483,7 +483,7 @@ impl Property for C12 {
             let x = Dec::new(rng.chance(1, 2), &format!("{}{}", int.to_str_radix(10), "0".repeat(pad)), rng.range(-30, 30));
             let nd = exact_reciprocal(&x.to_ref()).map(|(_, nd)| nd).unwrap_or(1);
             let prec = (nd as i64 - 1 + pk as i64).clamp(1, 150) as u64;
-            return Trace { x, prec, mode, via: Via::Ctx, env: EnvSel::All, transport: (run % 7) as u8 };
+            return Trace { x, prec, mode, via: Via::Ctx, env: EnvSel::All, transport: (run % 11) as u8 };
         }
         if run < GRID + GRID2 {
             // deterministic enumeration of the reciprocals just above / below a power of ten the property names:
@@ -505,7 +505,7 @@ impl Property for C12 {
             }
             .clamp(1, 150) as u64;
             let x = Dec::new(rng.chance(1, 2), &digits, rng.range(-20, 20));
-            return Trace { x, prec, mode, via: Via::Ctx, env: EnvSel::All, transport: (run % 7) as u8 };
+            return Trace { x, prec, mode, via: Via::Ctx, env: EnvSel::All, transport: (run % 11) as u8 };
         }
         if run < GRID + GRID2 + GRID3 {
             // leading digits x length x small precision: every 3-digit prefix 100..999 x 1..22 digits x p = 1..3
@@ -523,7 +523,7 @@ impl Property for C12 {
             }
             let mode = *rng.pick(&MODES);
             let x = Dec::new(rng.chance(1, 2), &digits, rng.range(-25, 25));
-            return Trace { x, prec, mode, via: Via::Ctx, env: EnvSel::One(FloatEnv::Native), transport: (run % 7) as u8 };
+            return Trace { x, prec, mode, via: Via::Ctx, env: EnvSel::One(FloatEnv::Native), transport: (run % 11) as u8 };
         }
         if run < GRID + GRID2 + GRID3 + GRID4 {
             // every precision 1..=150 for the one- and two-digit coefficients 1..=12 (random scale, sign and mode):
@@ -532,7 +532,7 @@ impl Property for C12 {
             let c = r % 12 + 1;
             let prec = r / 12 + 1;
             let x = Dec::new(rng.chance(1, 2), &c.to_string(), rng.range(-30, 30));
-            return Trace { x, prec, mode: *rng.pick(&MODES), via: Via::Ctx, env: EnvSel::All, transport: (run % 7) as u8 };
+            return Trace { x, prec, mode: *rng.pick(&MODES), via: Via::Ctx, env: EnvSel::All, transport: (run % 11) as u8 };
         }
         let g5 = grid5(tier);
         if run < GRID + GRID2 + GRID3 + GRID4 + g5 {
@@ -559,7 +559,7 @@ impl Property for C12 {
             let pick: &str = *rng.pick(&ints);
             // small scales put many of these strictly between the integers (1.5, 1.25, -1.6, 1.999, ...)
             let x = Dec { int: pick.to_string(), scale: rng.range(-6, 6).max(if pick.len() > 6 { 18 } else { -6 }) };
-            return Trace { x, prec: DEFAULT_PREC, mode: Mode::HalfEven, via, env: EnvSel::All, transport: (run % 7) as u8 };
+            return Trace { x, prec: DEFAULT_PREC, mode: Mode::HalfEven, via, env: EnvSel::All, transport: (run % 11) as u8 };
         }
         if via == Via::Ctx && rng.chance(1, 12) {
             // reciprocals at a rounding boundary: 1/x within ~10^-(p+15) of a half-way point of the p-digit result
@@ -592,12 +592,12 @@ impl Property for C12 {
             let xi = xi + BigUint::from(delta);
             let x = Dec::new(rng.chance(1, 2), &xi.to_str_radix(10), rng.range(-40, 40));
             let mode = *rng.pick(&MODES);
-            return Trace { x, prec, mode, via: Via::Ctx, env: EnvSel::All, transport: (run % 7) as u8 };
+            return Trace { x, prec, mode, via: Via::Ctx, env: EnvSel::All, transport: (run % 11) as u8 };
         }
         let (x, hint) = gen_x(rng);
         let prec = if via == Via::Ctx { gen_prec(rng, hint) } else { DEFAULT_PREC };
         let mode = if via == Via::Ctx { *rng.pick(&MODES) } else { Mode::HalfEven };
-        let transport = rng.below(7) as u8;
+        let transport = rng.below(11) as u8;
         Trace { x, prec, mode, via, env: EnvSel::All, transport }
     }
 
